@@ -598,6 +598,9 @@ retry:
 			if kv, ok := p.checkUdt(cb, e); ok {
 				return kv
 			}
+			if a, ok := cb.getUnderlying(e).(*types.Array); ok { // pointer to a named array type
+				return []types.Type{types.Typ[types.Int], a.Elem()}
+			}
 		}
 	case *types.Chan:
 		return []types.Type{t.Elem(), nil}
